@@ -39,7 +39,7 @@ var props = map[string]propInfo{
 	},
 	"C02": {
 		Engine: "pbfsim", Race: true, Level: "exploration",
-		QuickRuns: 4000, ThoroughRuns: 150000, QuickSecs: 600, ThoroughSecs: 4 * 3600, Chunk: 200,
+		QuickRuns: 2500, ThoroughRuns: 150000, QuickSecs: 600, ThoroughSecs: 4 * 3600, Chunk: 100,
 		Rule:   "a run is one generated file (2-12, sometimes up to 40 blocks; 1 in 3 without a header block, i.e. a resumed stream; 1 in 30 with a block of 8001-9500 elements), a reference scan with 1 decoder and unit delays, and 3 executions at decoder counts drawn from 1..12,16,32 under drawn delay policies (per-goroutine speed classes 1..1000 quanta, consumer 1..4000), reader chunking, accept-all filter callbacks that are delay points in half of the executions, and in 1 run in 6 a second scanner that scans another file at the same time in the same simulated process (compared with its own reference). Oracle: delivered sequence deep-equal to the reference, snapshots at delivery equal values after the scan, no race report, no deadlock. Non-trivial: some later block finished decoding before an earlier one (observed through the callbacks). distinct = distinct (file, decoder count, interleaving hash) among non-trivial executions",
 		Probes: []string{"later-block-finished-before-earlier", "more-decoders-than-blocks", "unbuffered-channels", "slow-filter-callbacks", "block-with-more-than-8000-elements", "stream-starts-with-a-data-block", "two-overlapping-scanners"},
 		Real:   pbfReal, Simulated: pbfSim,
